@@ -861,13 +861,16 @@ func (w *World) exec(ev Event, n *Node, rec *StepRec) {
 		if cnt <= 1 {
 			p := w.payload(k, 0, size)
 			rec.PropPayloads = [][]byte{p}
-			rec.OpErr = n.RN.Propose(p)
+			// NB: the buffer is not touched after the call. Reusing it would be outside the contract:
+			// on the unchanged tree a follower that forwards the proposal keeps a reference to the
+			// caller's slice until the message is serialised.
+			rec.OpErr = n.RN.Propose(append([]byte(nil), p...))
 		} else {
 			var ents []*pb.Entry
 			for j := 0; j < cnt; j++ {
 				p := w.payload(k, j+1, size)
 				rec.PropPayloads = append(rec.PropPayloads, p)
-				ents = append(ents, &pb.Entry{Data: p})
+				ents = append(ents, &pb.Entry{Data: append([]byte(nil), p...)})
 			}
 			rec.OpErr = n.RN.Step(&pb.Message{Type: pb.MsgProp.Enum(), From: new(n.ID), Entries: ents})
 		}
